@@ -15,6 +15,11 @@
 //	broken        syntactically / type-wise broken user files, empty package, only _test files,
 //	              truncated / garbage / foreign derived.gen.go, undefined arguments
 //	aliasclash    well-typed: imported packages whose names collide with another import's full path
+//	nonascii      well-typed, supported: type names of 1-3 non-ASCII letters (2-, 3- and 4-byte letters), the
+//	              same type name in two or three imported packages, with helper requests (or user functions)
+//	              that already took prefix, prefix_ and every letter prefix of the name, so that the fresh-name
+//	              search runs past the letters into its numbered fallback; must end with exit 0 and a
+//	              derived.gen.go that parses and type-checks
 //
 // Second mode, used by the same check as the type-check oracle (fast, in-process, shared importer):
 //
@@ -66,6 +71,7 @@ type caseT struct {
 	Names   []string `json:"names"`   // a diagnostic should contain one of these (call name, type text)
 	Unsupp  bool     `json:"unsupp"`  // the argument type is outside the plugin's documented set
 	UserBad bool     `json:"userbad"` // the user's own files do not parse / type-check
+	MustOK  bool     `json:"mustok"`  // well-typed and inside the supported grammar: exit 0, parses, type-checks
 	Files   []string `json:"files"`
 }
 
@@ -443,6 +449,23 @@ func genTwins(prefixes map[string]string) {
 	}
 }
 
+// imported named type whose underlying type is an unnamed type that already has a helper: nameOf serves it by
+// assignability, but has registered the import of its package on the way (found with the nonascii family)
+func genImportedTwin(prefixes map[string]string) {
+	for _, tp := range typedPlugins() {
+		switch tp.name {
+		case "equal", "compare", "hash":
+		default:
+			continue
+		}
+		fn := prefixes[tp.name]
+		params, body := tp.call(fn)
+		src := "package PKGDIR\n\nimport p3 \"bad/PKGDIR/p3\"\n\ntype S struct {\n\tL []string\n\tF p3.T\n}\n\nfunc Use(" + params("*S") + ") {\n\t" + body + "\n}\n"
+		add(caseT{Family: "twins", Plugin: tp.name, What: "imported named type over an unnamed type that already has a helper", Call: fn, Names: []string{fn, "p3"}},
+			map[string]string{"u.go": src, "p3/p3.go": "package p3\n\ntype T []string\n"})
+	}
+}
+
 // ---------------------------------------------------------------- family: broken
 
 const goodUser = `package PKGDIR
@@ -531,6 +554,83 @@ func genAliasClash() {
 	mk("imported package whose name differs from its last path element",
 		"package PKGDIR\n\nimport (\n\todd \"bad/PKGDIR/v2\"\n\tstrs \"strings\"\n)\n\ntype S struct {\n\tX odd.T\n\tB *strs.Builder\n}\n\nfunc Eq(a, b *S) bool { return deriveEqual(a, b) }\n",
 		map[string]string{"v2/odd.go": "package strings\n\ntype T struct{ N []int }\n"})
+}
+
+// ---------------------------------------------------------------- family: nonascii
+
+func genNonASCII(prefixes map[string]string) {
+	// Δ Ω: 2 bytes; Ḁ: 3 bytes; 𝐀 𐐀: 4 bytes (all upper case letters: exported)
+	names := [][]string{{"Δ"}, {"Ḁ"}, {"𝐀"}, {"Δ", "Ω"}, {"Ḁ", "𐐀"}, {"Δ", "Ḁ", "𝐀"}, {"A", "Δ"}, {"Δ", "A"}, {"𝐀", "𝐀", "𝐀"}}
+	unders := []string{"[]int", "[]float64", "map[string]int", "[]string"}
+	for _, tp := range typedPlugins() {
+		switch tp.name {
+		case "equal", "compare", "hash", "deepcopy", "clone", "gostring":
+		default:
+			continue
+		}
+		for _, letters := range names {
+			full := strings.Join(letters, "")
+			for _, variant := range []string{"two-packages", "three-packages", "reserved-by-user-functions", "local-and-imported"} {
+				files := map[string]string{}
+				fn := prefixes[tp.name]
+				var fields, imports, extra []string
+				fields = append(fields, "L []uint16") // takes prefix_ ; not the underlying type of any named type below
+				npk := map[string]int{"two-packages": 2, "three-packages": 3, "reserved-by-user-functions": 2, "local-and-imported": 2}[variant]
+				for k := 1; k <= npk; k++ {
+					pk := fmt.Sprintf("p%d", k)
+					var sb strings.Builder
+					sb.WriteString("package " + pk + "\n\n")
+					if k == 1 && variant != "reserved-by-user-functions" {
+						// every proper letter prefix of the name is a type of its own in the first package
+						for n := 1; n < len(letters); n++ {
+							pre := strings.Join(letters[:n], "")
+							if pre == full {
+								continue
+							}
+							fmt.Fprintf(&sb, "type %s %s\n\n", pre, unders[(n+1)%len(unders)])
+							fields = append(fields, fmt.Sprintf("P%d %s.%s", n, pk, pre))
+						}
+					}
+					fmt.Fprintf(&sb, "type %s %s\n", full, unders[k%len(unders)])
+					files[pk+"/"+pk+".go"] = sb.String()
+					imports = append(imports, fmt.Sprintf("\t%s \"bad/PKGDIR/%s\"", pk, pk))
+					fields = append(fields, fmt.Sprintf("F%d %s.%s", k, pk, full))
+				}
+				if variant == "local-and-imported" {
+					extra = append(extra, fmt.Sprintf("type %s []bool\n", full))
+					fields = append(fields, "Loc "+full)
+				}
+				if variant == "reserved-by-user-functions" {
+					var calls []string
+					for n := 1; n <= len(letters); n++ {
+						name := fn + "_" + strings.Join(letters[:n], "")
+						dup := false
+						for _, c := range calls {
+							if c == name {
+								dup = true
+							}
+						}
+						if dup {
+							continue
+						}
+						calls = append(calls, name)
+						extra = append(extra, fmt.Sprintf("func %s() {}\n", name))
+					}
+					body := ""
+					for _, c := range calls {
+						body += "\t" + c + "()\n"
+					}
+					extra = append(extra, "func Reserved() {\n"+body+"}\n")
+				}
+				params, body := tp.call(fn)
+				src := "package PKGDIR\n\nimport (\n" + strings.Join(imports, "\n") + "\n)\n\ntype S struct {\n\t" + strings.Join(fields, "\n\t") + "\n}\n\n" +
+					strings.Join(extra, "\n") + "\nfunc Use(" + params("*S") + ") {\n\t" + body + "\n}\n"
+				files["u.go"] = src
+				add(caseT{Family: "nonascii", Plugin: tp.name, What: fmt.Sprintf("type name %s (%d letters, %d bytes), %s", full, len(letters), len(full), variant),
+					Call: fn, Names: []string{fn, full}, MustOK: true}, files)
+			}
+		}
+	}
 }
 
 // ---------------------------------------------------------------- type-check oracle
@@ -623,6 +723,8 @@ func main() {
 	must(os.WriteFile(filepath.Join(*out, "go.mod"), []byte("module bad\n\ngo 1.24\n"), 0o644))
 	genBroken()
 	genAliasClash()
+	genNonASCII(prefixes)
+	genImportedTwin(prefixes)
 	genTwins(prefixes)
 	genUnordered(prefixes)
 	genBadArgs(prefixes)
